@@ -19,7 +19,8 @@ EXPLANATION = (
     "length computed in 64 bits is never silently truncated; explicit casts are the repo's idiom); (4) in the incremental codecs "
     "(DELTA_BYTE_ARRAY) the local that carries the previous element is advanced on every path through "
     "the loop body, in the encoder and in the decoder, so both measure prefixes against the immediate "
-    "predecessor. "
+    "predecessor; (5) the running maximum handed to a bit-width function in the encoders is an unsigned "
+    "variable updated under an unsigned comparison, so the chosen width covers every packed value. "
     "Decides these clauses, not value equality of decode(encode(v)) for DELTA_*, dictionary or RLE.")
 
 RLE = "src/encoding/rle.c"
@@ -69,7 +70,10 @@ def run(ctx):
     ctx.clause("C11.2 count-driven codecs: produced = consumed = count*width, exact extents (skeleton)")
     ctx.clause("C11.3 no implicit 64->32 narrowing in encoders/decoders")
     ctx.clause("C11.4 incremental codecs advance their predecessor reference on every iteration (encoder and decoder)")
+    ctx.clause("C11.5 a bit width is computed from a maximum taken in unsigned arithmetic")
+    ctx.clause("C11.6 the hybrid encoder writes pending literals before a run (exhaustive over its control state)")
     run_pad_rule(ctx)
+    run_order_rule(ctx)
 
     # ---- (2) skeleton size agreement
     _plain(ctx)
@@ -79,6 +83,10 @@ def run(ctx):
     from ..rules import carried
     nc = carried.check(ctx, P.funcs_under("src/encoding/"))
     ctx.floor("C11 loop-carried predecessor references", nc, 4)
+
+    # ---- (5) widths come from unsigned maxima
+    nw = _unsigned_maxima(ctx)
+    ctx.floor("C11 running maxima feeding a bit-width function", nw, 1)
 
     # ---- (3) implicit narrowing
     nn = 0
@@ -94,6 +102,47 @@ def run(ctx):
            "no implicit 64->32-bit narrowing of a non-constant in the codec and file layers", "%d sites" % nn)
 
 
+def _unsigned_maxima(ctx):
+    """The width chosen for a block must cover every packed value as an unsigned magnitude: the running
+    maximum handed to a bit-width function is an unsigned variable updated under an unsigned comparison."""
+    P = ctx.P
+    n = 0
+    for f in P.funcs_under("src/encoding/"):
+        for c in f.calls():
+            if not c.callee or "bit_width" not in c.callee or not c.args():
+                continue
+            a = c.args()[0].strip_casts()
+            if a.k != "DeclRefExpr" or a.get("dk") != "local":
+                continue
+            d = a.get("d")
+            upd = []
+            for g in f.body.walk():
+                if g.k != "IfStmt":
+                    continue
+                kids = [x for x in g.c if x is not None]
+                cond = kids[0].strip()
+                if cond.k != "BinaryOperator" or cond.op not in (">", "<", ">=", "<="):
+                    continue
+                sides = [x.strip_casts() for x in cond.c]
+                if not any(x.k == "DeclRefExpr" and x.get("d") == d for x in sides):
+                    continue
+                if not any(is_assign(x) and x.c[0].strip().k == "DeclRefExpr" and x.c[0].strip().get("d") == d
+                           for x in kids[1].walk()):
+                    continue
+                upd.append(cond)
+            if not upd:
+                continue
+            n += 1
+            W = dict(UNSIGNED)
+            bad = [cnd for cnd in upd if not all(clean_type(x.t) in W for x in cnd.c)]
+            decl_t = clean_type(a.t)
+            ctx.ob("R5.unsigned-max", "unsigned-max|%s:%s|%s" % (P.rel(f.file), f.name, a.name), P.where(c),
+                   "`%s` handed to %s is an unsigned running maximum (unsigned variable, unsigned comparison)" % (a.name, c.callee),
+                   not bad and decl_t in W,
+                   "declared %s; comparison `%s` is done in %s" % (decl_t, src(bad[0])[:50], clean_type(bad[0].c[0].t)) if bad or decl_t not in W else "")
+    return n
+
+
 def narrowing_sites(P, fns):
     """Implicit integral conversions of a non-constant from a 64-bit to a <=32-bit type."""
     W = dict(UNSIGNED)
@@ -104,6 +153,68 @@ def narrowing_sites(P, fns):
                 st, dt = clean_type(n.c[0].t), clean_type(n.t)
                 if W.get(st, 0) == 64 and 0 < W.get(dt, 0) <= 32 and n.c[0].cv is None:
                     yield f, n, st, dt
+
+
+def run_order_rule(ctx):
+    """Order of emission in the hybrid encoder, by exhaustive abstract execution over its control
+    state: from every resting state (k pending literals, a current run of r equal values) a value
+    change and a flush emit the pending literals before the run - a repeated run is only written
+    when no literal group is pending - and flush leaves nothing behind. Values are opaque (only
+    compared for equality); nothing is encoded or decoded."""
+    from ..rules.skeleton import Interp, Ptr, U, Budget, Stop
+    P = ctx.P
+    RL = "src/encoding/rle.c"
+    rec = P.record("carquet_rle_encoder")
+    off = {f["n"]: f["off"] // 8 for f in rec["fields"] if f.get("off") is not None}
+    need = ("bit_width", "prev_value", "repeat_count", "has_prev", "bitpack_count", "bitpack_total", "status")
+    if any(n not in off for n in need):
+        raise AnalysisBroken("carquet_rle_encoder: state fields not found")
+    put = P.fn("carquet_rle_encoder_put", RL)
+    flush = P.fn("carquet_rle_encoder_flush", RL)
+    rle = P.fn("flush_rle", RL)
+    RMAX = ctx.depth(40, 200)
+    bad = None
+    runs = 0
+    for fn, extra in ((put, [7]), (flush, [])):
+        for k in range(0, 8):
+            for r in range(1, RMAX + 1):
+                it = Interp(P, fn, budget=200000, max_forks=16)
+                it.heap0 = {("enc", off["bit_width"]): 3, ("enc", off["prev_value"]): 1, ("enc", off["repeat_count"]): r,
+                            ("enc", off["has_prev"]): 1, ("enc", off["bitpack_count"]): k, ("enc", off["bitpack_total"]): k,
+                            ("enc", off["status"]): 0}
+                ev = []
+                it.hooks["write_varint"] = lambda i_, node, args: 0
+                it.hooks["encoder_append"] = lambda i_, node, args: 0
+                it.hooks["carquet_bitpack8_32"] = lambda i_, node, args: 0
+
+                def on_rle(i_, node, args, ev=ev, it=it):
+                    ev.append(("run", it.heap.get(("enc", off["bitpack_count"])), it.heap.get(("enc", off["repeat_count"]))))
+                    it.heap[("enc", off["repeat_count"])] = 0
+                    return 0
+                it.hooks["flush_rle"] = on_rle
+                try:
+                    outs = it.run([Ptr("enc", 0, 1)] + extra)
+                except (Budget, Stop) as ex:
+                    ctx.inconclusive("R11.order", "rle-order|%s:%s" % (RL, fn.name), P.where(fn.body),
+                                     "abstract execution of the encoder state machine", str(ex))
+                    return
+                if len(outs) != 1:
+                    ctx.inconclusive("R11.order", "rle-order|%s:%s" % (RL, fn.name), P.where(fn.body),
+                                     "the encoder's control flow depends on something other than its counters")
+                    return
+                runs += 1
+                pend = [e for e in ev if e[0] == "run" and e[1] not in (0,)]
+                if pend and bad is None:
+                    bad = "%s with %d pending literal(s) and a run of %d: the run is written while %s literal(s) are still pending" % (
+                        fn.name, k, r, pend[0][1])
+                if fn is flush and bad is None:
+                    left = (it.heap.get(("enc", off["bitpack_count"])), it.heap.get(("enc", off["repeat_count"])))
+                    if left != (0, 0):
+                        bad = "flush with %d pending literal(s) and a run of %d leaves (pending, run) = %s behind" % (k, r, left)
+    ctx.count("rle_order_states", runs)
+    ctx.ob("R11.order", "rle-order|%s:carquet_rle_encoder" % RL, P.where(rle.body),
+           "from every resting state (0..7 pending literals x run length 1..%d) a value change and a flush write the "
+           "pending literals before the run, and flush leaves nothing pending" % RMAX, bad is None, bad or "")
 
 
 def run_pad_rule(ctx):
